@@ -41,7 +41,8 @@ def gen_case(rng, tier):
         lens = list(rng.choice(SIZES2[:5] + [(4, 5), (6, 6)]))
     return {
         "lens": lens,
-        "style": rng.choice(["default_defined", "default_not_defined"]),
+        "style": rng.choice(["default_defined", "default_not_defined",
+                             "traits", "traits_private"]),
         "p_not_defined": rng.choice([0.0, 0.1, 0.5, 0.9, 1.0]),
         "subset_seed": rng.randrange(1 << 30),
     }
@@ -97,7 +98,31 @@ def emit_program(case):
     codeexpr = "0"
     for i in range(arity):
         codeexpr = "(%s) * 1000 + T%d::index + 1" % (codeexpr, i)
-    if case["style"] == "default_defined":
+    if case["style"] in ("traits", "traits_private"):
+        # per-position traits: a combination is marked not_defined when any of
+        # its classes is unsupported at its position -- through one base, or
+        # through several (an ambiguous base is still a base), or privately
+        rng2 = random.Random(case["subset_seed"] + 7)
+        unsupported = [set(i for i in range(n)
+                           if rng2.random() < min(case["p_not_defined"], 0.5))
+                       for n in lens]
+        not_def = [c for c in all_combos
+                   if any(c[p] in unsupported[p] for p in range(arity))]
+        nd_set = set(tuple(c) for c in not_def)
+        defined = [c for c in all_combos if tuple(c) not in nd_set]
+        out.append("template<int Pos, typename T> struct supported {};")
+        for p in range(arity):
+            for i in sorted(unsupported[p]):
+                out.append("template<> struct supported<%d, K<%d>> : "
+                           "not_defined {};" % (p, i))
+        access = "private " if case["style"] == "traits_private" else ""
+        bases = ", ".join("%ssupported<%d, T%d>" % (access, p, p)
+                          for p in range(arity))
+        kw = "class" if case["style"] == "traits_private" else "struct"
+        out.append("template<typename M, %s> %s definition : %s { public: "
+                   "static int fn(%s) { return %s; } };" % (
+                       targs, kw, bases, fparams, codeexpr))
+    elif case["style"] == "default_defined":
         out.append("template<typename M, %s> struct definition { static int "
                    "fn(%s) { return %s; } };" % (targs, fparams, codeexpr))
         for c in not_def:
@@ -229,6 +254,10 @@ def check(tier, seed, scratch, inc, ncpu, pool_map):
         cases[1] = dict(cases[1], lens=[8, 8, 8], p_not_defined=0.5,
                         style="default_not_defined")
         cases[2] = dict(cases[2], lens=[5, 7], p_not_defined=0.5)
+        cases[4] = dict(cases[4], lens=[4, 4], p_not_defined=0.5,
+                        style="traits")
+        cases[5] = dict(cases[5], lens=[3, 3, 3], p_not_defined=0.5,
+                        style="traits_private")
     results = pool_map(run_case, [(c, scratch, "c20_%d" % i, inc)
                                   for i, c in enumerate(cases)])
     res = dict(evaluations=0, nontrivial=0, inconclusive=0, classes={},
@@ -273,6 +302,6 @@ def shrinks(case):
                     out.append(dict(case, lens=lens[:i] + [m] + lens[i + 1:]))
     if len(lens) > 2:
         out.append(dict(case, lens=lens[:-1]))
-    if case["style"] != "default_defined":
+    if case["style"] not in ("default_defined", "traits", "traits_private"):
         out.append(dict(case, style="default_defined"))
     return out
